@@ -335,10 +335,10 @@ func TestC26(t *testing.T) {
 	var wg sync.WaitGroup
 	sem := make(chan struct{}, 8)
 	for i := 0; i < n; i++ {
-		c := &c26Case{Backend: "etcd", Scenario: scen[i%4], Entry: entries[(i/4)%3], BWhen: []string{"before-next-heartbeat", "after-next-heartbeat"}[(i/12)%2], TickK: 1 + r.Intn(2), ExclMs: r.Intn(900)}
-		if i%3 == 2 {
-			c.Backend = "redis"
-		}
+		// the full cross product scenario x entry point x moment of the second registration x back end (48
+		// combinations), walked through by an index that runs on from batch to batch
+		j := env.Batch*n + i
+		c := &c26Case{Backend: []string{"etcd", "redis"}[(j/24)%2], Scenario: scen[j%4], Entry: entries[(j/4)%3], BWhen: []string{"before-next-heartbeat", "after-next-heartbeat"}[(j/12)%2], TickK: 1 + r.Intn(2), ExclMs: r.Intn(900)}
 		c.Key = fmt.Sprintf("/c26/%d/%d", env.Batch, i)
 		switch c.Entry {
 		case "service":
